@@ -84,7 +84,7 @@ Lemma exec_cancels : forall c p now, cancelling c -> admits p ->
   exists p', exec true c p now = (OOk, p') /\ gen_is 1 p'.
 Proof.
   intros c p now Hc (He & Hw & Hx).
-  destruct c as [|sd| | |]; cbn [cancelling] in Hc; try tauto; cbn [exec]; unfold patch, set_sequence, cancel_then;
+  destruct c as [|sd| | |]; cbn [cancelling] in Hc; try tauto; unfold exec; cbn [exec_g]; unfold patch, set_sequence, cancel_then;
     rewrite ?Hc, ?Nat.eqb_refl, ?He, ?Hw, ?Hx; cbn [negb];
     destruct (p_seq p) as [s|] eqn:Es; try (unfold cancel; destruct (s_task s)); try destruct (sd_vals sd);
     eexists; (split; [reflexivity|]); intros s0 H0; cbn in H0; rewrite ?Es in H0; try discriminate;
@@ -109,8 +109,9 @@ Theorem cancel_immediate : forall fuel sc,
   sc_enabled sc = true -> sc_writable sc = true -> sc_expr sc = false ->
   List.length (sd_vals (sc_seq sc)) = List.length (sd_delays (sc_seq sc)) ->
   cancelling (sc_cmd sc) -> sc_at sc <= sc_horizon sc ->
-  exists a0 l1 a a' l2,
-    sim true fuel sc = MP OOk a0 :: l1 ++ [MC (sc_at sc) a; MD (sc_at sc) OOk a'] ++ l2 /\
+  exists a0 l1 a td a' l2,
+    sim true fuel sc = MP OOk a0 :: l1 ++ [MC (sc_at sc) a; MD td OOk a'] ++ l2 /\
+    sc_at sc <= td <= sc_at sc + dpos (sc_dlat sc) /\
     (forall m, In m l1 -> before_cmd 0 (sc_at sc) (sc_pos sc) m) /\
     (forall m, In m l2 -> after_cmd m).
 Proof.
@@ -133,8 +134,11 @@ Proof.
   destruct (exec_cancels (sc_cmd sc) p2 (sc_at sc) Hc Hadm2) as (p3 & -> & Hg3).
   destruct (run_until_events fuel p3 (sc_horizon sc + 1) 0 1 Hg3) as (A2 & _ & _).
   destruct (run_until fuel p3 (sc_horizon sc + 1) 0) as [l2 p4]. cbn [fst snd] in *.
-  exists (is_active p1), l1, (is_active p2), (is_active p3), (l2 ++ [ME (sc_horizon sc) (is_active p4)]).
-  split; [reflexivity|]. split; [exact A|].
+  exists (is_active p1), l1, (is_active p2), (sc_at sc + hook_latency sc p2), (is_active p3),
+         (l2 ++ [ME (sc_horizon sc) (is_active p4)]).
+  split; [reflexivity|]. split.
+  { unfold hook_latency, dpos. destruct (sc_cmd sc); try lia. destruct (p_enabled p2); lia. }
+  split; [exact A|].
   intros m Hm. apply in_app_or in Hm as [Hm|[<-|[]]]; [|exact I].
   specialize (A2 m Hm). destruct m; cbn in *; tauto.
 Qed.
@@ -187,4 +191,58 @@ Proof.
   intros guard fuel sc o Hr Hc. unfold sim.
   destruct (patch_refused guard 0 _ (sc_seq sc) 0 o Hr) as [-> Ho]. rewrite Hc. cbn [no_cmd orb].
   rewrite run_until_idle by reflexivity. split; [reflexivity | exact Ho].
+Qed.
+
+(* ------------------------------------------------------------------------------------------------------------ *)
+(* two concurrent commands (Model.sim2, the code with fixes/C19-concurrent-cancel.diff): whatever the two commands are and
+   wherever they fall, everything submitted after both have returned belongs to ONE sequence generation — the port never
+   plays two sequences, none is left playing unreferenced *)
+
+Lemma last_app_ne : forall {A} (a b : list A) d, b <> [] -> last (a ++ b) d = last b d.
+Proof.
+  intros A a b d Hb. induction a as [|x a IH]; [reflexivity|]. cbn [app].
+  destruct (a ++ b) as [|y r] eqn:E. { apply app_eq_nil in E as [_ E]. contradiction. }
+  change (last (x :: y :: r) d) with (last (y :: r) d). exact IH.
+Qed.
+
+Lemma gen_exists : forall p, exists g, gen_is g p.
+Proof.
+  intros p. destruct (p_seq p) as [s|] eqn:E.
+  - exists (s_gen s). intros s' H. rewrite E in H. now injection H as <-.
+  - exists 0. intros s' H. rewrite E in H. discriminate.
+Qed.
+
+Theorem pair_single_survivor : forall fuel sc c2,
+  exists pre l2 a g,
+    sim2 fuel sc c2 = pre ++ map M1 l2 ++ [M1 (ME (sc_horizon sc) a)] /\
+    (exists t o b, last pre (MD2 0 OOk false) = MD2 t o b \/ last pre (MD2 0 OOk false) = M1 (MD t o b)) /\
+    (forall m, In m l2 -> before_cmd g (sc_horizon sc + 1) 0 m).
+Proof.
+  intros fuel sc c2. unfold sim2.
+  destruct (patch true 0 _ (sc_seq sc) 0) as [o0 p1].
+  destruct (run_until fuel p1 (sc_at sc) (sc_pos sc)) as [l1 p2].
+  set (mp := match cmd_start 1 (sc_cmd sc) p2 (sc_at sc) with inl _ => _ | inr _ => _ end).
+  assert (Hmid : exists m0 t o b, fst mp = m0 /\ (last m0 (MD2 0 OOk false) = MD2 t o b \/ last m0 (MD2 0 OOk false) = M1 (MD t o b))
+                                  /\ m0 <> []).
+  { subst mp. destruct (cmd_start 1 (sc_cmd sc) p2 (sc_at sc)) as [[o1 p3]|p3].
+    - destruct (cmd_start 2 c2 p3 (sc_at sc)) as [[o2 p4]|p4].
+      + eexists _, _, _, _. split; [reflexivity|]. split; [left; reflexivity | discriminate].
+      + destruct (resume_body 2 c2 p4 (sc_at sc)) as [o2 p5].
+        eexists _, _, _, _. split; [reflexivity|]. split; [left; reflexivity | discriminate].
+    - destruct (exec_g true 2 c2 p3 (sc_at sc)) as [o2 p4].
+      destruct (resume_body 1 (sc_cmd sc) (set_seq p4 None) (sc_at sc)) as [o1 p5].
+      eexists _, _, _, _. split; [reflexivity|]. split.
+      + right. cbn [fst]. rewrite app_assoc. apply last_last.
+      + cbn [fst app]. discriminate. }
+  destruct mp as [mid pend]. cbn [fst] in Hmid. destruct Hmid as (m0 & t & o & b & <- & Hlast & Hne).
+  destruct (gen_exists pend) as [g Hg].
+  destruct (run_until_events fuel pend (sc_horizon sc + 1) 0 g Hg) as (A & _ & _).
+  destruct (run_until fuel pend (sc_horizon sc + 1) 0) as [l2 p6]. cbn [fst] in A.
+  exists (M1 (MP o0 (is_active p1)) :: map M1 l1 ++ [M1 (MC (sc_at sc) (is_active p2))] ++ mid), l2, (is_active p6), g.
+  split; [cbn [app]; now rewrite <- !app_assoc|]. split; [|exact A].
+  exists t, o, b.
+  replace (M1 (MP o0 (is_active p1)) :: map M1 l1 ++ [M1 (MC (sc_at sc) (is_active p2))] ++ mid)
+    with ((M1 (MP o0 (is_active p1)) :: map M1 l1 ++ [M1 (MC (sc_at sc) (is_active p2))]) ++ mid)
+    by (cbn [app]; now rewrite <- app_assoc).
+  rewrite last_app_ne by exact Hne. exact Hlast.
 Qed.
